@@ -64,6 +64,7 @@ pub struct Fixed {
     pub nowhere: String,
     pub validators: Vec<String>,
     pub unbonding_time: u64,
+    pub addr_pool: u8,
 }
 
 #[derive(Clone, Debug, PartialEq, Eq, PartialOrd, Ord)]
@@ -103,6 +104,9 @@ pub enum Why {
     RegistryReject,
     /// the sender is not the contract's current admin
     Unauthorized,
+    /// the derived address is already taken: accepting the request would let two contracts share
+    /// one key space
+    DuplicateAddress,
     Plain,
 }
 
@@ -1027,6 +1031,7 @@ impl<'a> Interp<'a> {
         };
         let instance_id = self.st.contracts.len() as u64;
         let addr = match &salt {
+            None if self.fx.addr_pool > 0 => classic_address(1, instance_id % self.fx.addr_pool as u64),
             None => classic_address(code_id, instance_id),
             Some(s) => match salted_address(&code.checksum, sender, s) {
                 Some(a) => a,
@@ -1034,6 +1039,7 @@ impl<'a> Interp<'a> {
             },
         };
         if self.st.contracts.contains_key(&addr) {
+            self.why(Why::DuplicateAddress);
             return fail(self);
         }
         self.st.contracts.insert(addr.clone(), CInfo { code_id, creator: sender.to_string(), admin, label: label.to_string(), created: self.st.block.0, kv: Kv::new() });
